@@ -114,7 +114,7 @@ def brentsroot(f, bounds, tol=None, verbose=False, return_interval=False):
     fa = f(a)
     fb = f(b)
 
-    if fa * fb >= D.epsilon(lower_bound.dtype):
+    if fa * fb > 0:
         return D.ar_numpy.asarray(numpy.inf, like=lower_bound), False
     if D.ar_numpy.abs(fa) < D.ar_numpy.abs(fb):
         a, b = b, a
@@ -317,7 +317,7 @@ def brentsrootvec(f, bounds, tol=None, verbose=False, return_interval=False, acc
     if verbose:
         with numpy.printoptions(precision=17, linewidth=200):
             print(f"[{numiter}] a={D.ar_numpy.to_numpy(a)}, b={D.ar_numpy.to_numpy(b)}, f(a)={D.ar_numpy.to_numpy(fa)}, f(b)={D.ar_numpy.to_numpy(fb)}, conv={D.ar_numpy.to_numpy(not_conv)}")
-    true_conv = true_conv | ((fa * fb <= 0) & (D.ar_numpy.abs(b - a) <= tol * D.ar_numpy.maximum(1.0, D.ar_numpy.abs(b))))
+    true_conv = (fa * fb <= 0) & (true_conv | (D.ar_numpy.abs(b - a) <= tol * D.ar_numpy.maximum(1.0, D.ar_numpy.abs(b))))
     if return_interval:
         return b, true_conv, (a, b)
     else:
